@@ -47,6 +47,10 @@ def plan(tier, seed):
     for kind in PROJ:
         for mem in ["block", "distorted", "renum"] + (["curved"] if kind in zoo.QUADRATIC else []):
             cases.append(dict(key=f"project/{kind}/{mem}", op="project", kind=kind, member=mem, seed=seed, cost=15 if "27" in kind or "20" in kind or "10" in kind else 2))
+        # the same body in other length units (millimetre-sized specimen in metres, and the reverse): projection is scale free
+        for sc in (1e-3, 1e3):
+            if tier == "thorough" or kind in ("quad", "hexahedron", "triangle", "tetra", "quad8"):
+                cases.append(dict(key=f"project/{kind}/block/scale={sc}", op="project", kind=kind, member="block", scale=sc, seed=seed, cost=2))
     for kind in ("quad", "hexahedron"):
         for mem in ("ref", "block", "distorted", "renum", "affine"):
             cases.append(dict(key=f"extrapolate/{kind}/{mem}", op="extrapolate", kind=kind, member=mem, seed=seed))
@@ -120,6 +124,8 @@ def run(case):
     if op == "project":
         kind = case["kind"]
         mesh = zoo.make(kind, case["member"], seed)
+        if case.get("scale"):
+            mesh = fem.Mesh(mesh.points * case["scale"], mesh.cells, mesh.cell_type)
         region = proj_region(kind, mesh)
         n = mesh.npoints
         # (1) all unit nodal fields at once: field of dim n with values = identity
@@ -146,7 +152,7 @@ def run(case):
             np.add.at(rowsum, region.mesh.cells.ravel(), mrow.ravel())
             lhs = np.einsum("a...,a->...", P, rowsum)
             rhs = (V * dV).sum((-1, -2))
-            c.close(f"{lab}/integral", "volume integral of the projected field = volume integral of the values", lhs, rhs, scale=max(np.abs(rhs).max(), 1.0))
+            c.close(f"{lab}/integral", "volume integral of the projected field = volume integral of the values", lhs, rhs, scale=max(np.abs(rhs).max(), 0.1 * float(dV.sum())))
         # discontinuous projection (average=False): per-cell least squares -> exact for FE data too
         got = fem.project(vq, region, average=False)
         c.trans += 1
